@@ -180,7 +180,46 @@ func checkC03(r *core.Run) {
 			lockFns[f.Obj] = true
 		}
 	}
-	reachLock := newReach(w, 3, func(f *types.Func) bool { return lockFns[f] })
+	// a storing helper: stores the builder's key for an image it is handed as a parameter (and returns no image
+	// itself); its callers are then the functions that "store the key of the image they return"
+	storeHelper := map[*types.Func]int{}
+	for _, f := range w.SortedFuncs() {
+		if !lockFns[f.Obj] {
+			continue
+		}
+		if f.Obj.Type().(*types.Signature).Results().Len() != 0 {
+			continue
+		}
+		ast.Inspect(f.Decl.Body, func(n ast.Node) bool {
+			as, ok := n.(*ast.AssignStmt)
+			if !ok {
+				return true
+			}
+			k := isLockKeyStore(f.Pkg.TypesInfo, as, fld)
+			if k == nil {
+				return true
+			}
+			if okKey, imgArg := lockKeyFromBuilder(f, k); okKey {
+				for i, p := range paramObjs(f) {
+					if p.Name() == imgArg {
+						storeHelper[f.Obj] = i
+					}
+				}
+			}
+			return true
+		})
+	}
+	for _, f := range w.SortedFuncs() {
+		if f.Pkg.PkgPath != pExecAT || w.IsTestFile(f.Decl.Pos()) || lockFns[f.Obj] {
+			continue
+		}
+		for _, cs := range w.Calls(f) {
+			if _, ok := storeHelper[cs.Static]; ok {
+				lockFns[f.Obj] = true
+			}
+		}
+	}
+	reachLock := newReach(w, 3, func(f *types.Func) bool { _, isHelper := storeHelper[f]; return lockFns[f] && !isHelper })
 	nWriters := 0
 	for _, t := range live {
 		ec := methodInfo(w, t, "ExecContext")
@@ -230,8 +269,41 @@ func checkC03(r *core.Run) {
 		}
 		r.Fn(f)
 		info := f.Pkg.TypesInfo
-		sp := &flow.Spec{W: w, Depth: 0, AssignTags: assignTags}
+		if _, isHelper := storeHelper[f.Obj]; isHelper {
+			// the helper: the key it stores is the builder's result for the image it was handed
+			ast.Inspect(f.Decl.Body, func(n ast.Node) bool {
+				if as, ok := n.(*ast.AssignStmt); ok {
+					if k := isLockKeyStore(info, as, fld); k != nil {
+						r.Sites++
+						okKey, imgArg := lockKeyFromBuilder(f, k)
+						r.Check(okKey, "C03.everyexec", core.ShortKey(f.Obj)+" : LockKeys[key] key origin", w.Pos(as.Pos()), "the stored key is the lock-key builder's result for "+imgArg,
+							"the stored lock key is not the result of the lock-key builder applied to an image")
+					}
+				}
+				return true
+			})
+			continue
+		}
+		var helperImg []string // image expressions handed to a storing helper
+		sp := &flow.Spec{W: w, Depth: 0, Inline: -1, AssignTags: assignTags, Classify: func(pkg *packages.Package, call *ast.CallExpr, callee *types.Func) []flow.Tag {
+			if idx, ok := storeHelper[callee]; ok && idx < len(call.Args) {
+				helperImg = append(helperImg, core.ExprString(call.Args[idx]))
+				return []flow.Tag{"lockstore"}
+			}
+			return nil
+		}}
 		res := sp.Analyze(f)
+		for _, imgArg := range uniq(helperImg) {
+			r.Sites++
+			returned := false
+			for _, ex := range res.Exits {
+				if len(ex.Results) > 0 && (core.ExprString(ex.Results[0]) == imgArg || derivesFromName(f, ex.Results[0], imgArg, 2)) {
+					returned = true
+				}
+			}
+			r.Check(returned, "C03.everyexec", core.ShortKey(f.Obj)+" : key built from the returned image", w.Pos(f.Decl.Pos()),
+				"lock key is built from the image this function returns", "the lock key is built from "+imgArg+", which is not the image this function returns")
+		}
 		for _, ex := range res.Exits {
 			if ex.Class == flow.ExitErr || len(ex.Results) == 0 || isNilIdent(info, ex.Results[0]) {
 				continue
